@@ -272,7 +272,7 @@ func (e *Env) evalSel(n *CSel) V {
 	x := e.x
 	// package-qualified identifier
 	if id, ok := n.X.(*CIdent); ok {
-		if _, shadow := e.names[id.Name]; !shadow {
+		if !e.isValueName(id.Name) {
 			if pkg := e.importedPkg(id.Name); pkg != nil {
 				obj := pkg.Scope().Lookup(n.Name)
 				if obj == nil {
@@ -306,6 +306,51 @@ func (e *Env) evalSel(n *CSel) V {
 	}
 	_ = x
 	return cur
+}
+
+// isValueName: the identifier denotes a value (bound name, local, parameter or
+// package-level object) rather than an imported package.
+func (e *Env) isValueName(name string) bool {
+	if _, ok := e.names[name]; ok {
+		return true
+	}
+	if e.frame != nil && e.frame.fn != nil {
+		for _, p := range e.frame.fn.Params {
+			if p.Name() == name {
+				return true
+			}
+		}
+		for _, fv := range e.frame.fn.FreeVars {
+			if fv.Name() == name {
+				return true
+			}
+		}
+		// source-level locals
+		for _, b := range e.frame.fn.Blocks {
+			for _, in := range b.Instrs {
+				switch i := in.(type) {
+				case *ssa.Phi:
+					if i.Comment == name {
+						return true
+					}
+				case *ssa.Alloc:
+					if i.Comment == name {
+						return true
+					}
+				case *ssa.DebugRef:
+					if o := i.Object(); o != nil && o.Name() == name {
+						if _, isPkg := o.(*types.PkgName); !isPkg {
+							return true
+						}
+					}
+				}
+			}
+		}
+	}
+	if e.pkg != nil && e.pkg.Scope().Lookup(name) != nil {
+		return true
+	}
+	return false
 }
 
 func (e *Env) pkgForLookup(t types.Type) *types.Package {
@@ -375,6 +420,11 @@ func (e *Env) evalIndex(n *CIndex) V {
 		idx := x.toMathInt(e.eval(n.I))
 		et := u.Elem()
 		sarr := x.heapGet(e.cur, heapKeySlice(et), et)
+		suffix := " (s_off " + v.S + "))"
+		if strings.HasPrefix(idx, "(- q_") && strings.HasSuffix(idx, suffix) && !strings.Contains(idx[3:len(idx)-len(suffix)], " ") {
+			// absolute-index quantifier variable (see evalQuant)
+			return V{T: et, S: "(select (select " + sarr + " (s_base " + v.S + ")) " + idx[3:len(idx)-len(suffix)] + ")"}
+		}
 		return V{T: et, S: "(select (select " + sarr + " (s_base " + v.S + ")) (+ (s_off " + v.S + ") " + idx + "))"}
 	case *types.Array:
 		idx := x.toMathInt(e.eval(n.I))
@@ -597,10 +647,33 @@ func (e *Env) evalQuant(n *CQuant) V {
 	var rng string
 	if n.Lo != nil {
 		sortName = "Int"
-		ce.names[n.Var] = mathV(bound)
 		lo := x.toMathInt(e.eval(n.Lo))
 		hi := x.toMathInt(e.eval(n.Hi))
-		rng = "(and (<= " + lo + " " + bound + ") (< " + bound + " " + hi + "))"
+		// When the bound variable indexes exactly one slice expression, quantify over the
+		// absolute index into the backing array: the trigger (select (select S base) j)
+		// then contains no arithmetic and E-matching works.
+		if xs := singleIndexedSlice(n.Body, n.Var); xs != nil {
+			sv := func() (v V) {
+				defer func() {
+					if r := recover(); r != nil {
+						if _, ok := r.(contractError); !ok {
+							panic(r)
+						}
+						v = V{}
+					}
+				}()
+				return e.eval(xs)
+			}()
+			if sv.T != nil && isSliceT(sv.T) && sv.S != "" {
+				off := "(s_off " + sv.S + ")"
+				ce.names[n.Var] = mathV("(- " + bound + " " + off + ")")
+				rng = "(and (<= (+ " + off + " " + lo + ") " + bound + ") (< " + bound + " (+ " + off + " " + hi + ")))"
+			}
+		}
+		if rng == "" {
+			ce.names[n.Var] = mathV(bound)
+			rng = "(and (<= " + lo + " " + bound + ") (< " + bound + " " + hi + "))"
+		}
 	} else {
 		t := e.resolveType(n.Typ)
 		sortName = x.s.sortOf(t)
@@ -658,7 +731,7 @@ func (e *Env) tryType(c CExpr) (types.Type, bool) {
 		if !ok {
 			return nil, false
 		}
-		if _, shadow := e.names[id.Name]; shadow {
+		if e.isValueName(id.Name) {
 			return nil, false
 		}
 		name = id.Name + "." + n.Name
@@ -780,7 +853,7 @@ func (e *Env) evalCall(n *CCall) V {
 	if sel, ok := n.Fun.(*CSel); ok {
 		// pkg.Func(...), pkg.Type(...), value.Method(...)
 		if id, ok := sel.X.(*CIdent); ok {
-			if _, shadow := e.names[id.Name]; !shadow {
+			if !e.isValueName(id.Name) {
 				if pkg := e.importedPkg(id.Name); pkg != nil {
 					if sf := x.cs.Specs[pkg.Path()+"."+sel.Name]; sf != nil {
 						return e.callSpec(sf, n.Args)
